@@ -39,7 +39,13 @@ BLOCKTYPE = {k: BlockType(v) for k, v in TYPE_CODE.items()}
 SEGMENTED = ("data3d", "emg", "ft", "fpdata")
 
 
-def _as(a, dt, wide):
+def _as(a, dt, wide, lists_ok=False):
+    if dt == "list" and not lists_ok:
+        dt = False  # plain lists only where the library takes vectors as they come (see callers)
+    return _as2(a, dt, wide)
+
+
+def _as2(a, dt, wide):
     """The array as a user might hold it: native float32 (None/False), float64 (True/'f64'),
     big-endian of the on-disk width ('be') or of double width ('be64'), or a MaskedArray
     ('ma', only for sample rows)."""
@@ -60,14 +66,16 @@ def _as(a, dt, wide):
         return view
     if dt == "fortran":
         return np.asfortranarray(a)
+    if dt == "list":  # plain (nested) Python lists where a vector or matrix is expected
+        return a.tolist()
     return a.copy()
 
 
-def _f32(b, shape=None, f64=False):
+def _f32(b, shape=None, f64=False, lists_ok=False):
     a = np.frombuffer(b, dtype="<f4")
     if shape is not None:
         a = a.reshape(shape)
-    return _as(a, f64, False)
+    return _as(a, f64, False, lists_ok)
 
 
 def _f64(b, shape=None, dt=None):
@@ -162,7 +170,8 @@ def _build(C, f64=False, dates=None):
         b = ForcePlatformsCalibrationDataBlock(format=ForcePlatformCalibrationBlockFormat(C["fmt"]), **_ctor_dates(dates))
         b._dates_by_ctor = dates is not None
         for p in C["plats"]:
-            b.add_platform(ForcePlatformInfo(p["label"], _f32(p["size"]), _f32(p["pos"], (4, 3))),
+            b.add_platform(ForcePlatformInfo(p["label"], _f32(p["size"], None, "list" if f64 == "list" else False, True),
+                                             _f32(p["pos"], (4, 3), "list" if f64 == "list" else False, True)),
                            channel=p["ch"])
     elif t == "data2d":
         b = Data2D(C["nCams"], C["nFrames"], C["freq"], _scalar32(C["start"]), Data2DFlags(C["flags"]),
@@ -171,7 +180,7 @@ def _build(C, f64=False, dates=None):
         for fr in range(C["nFrames"]):
             for cam in range(C["nCams"]):
                 cell = C["cells"][fr][cam]
-                data[fr, cam] = None if cell is None else _f32(cell, (-1, 2), f64)
+                data[fr, cam] = None if cell is None else _f32(cell, (-1, 2), f64, True)  # also a list of [x, y]
         b.data = data
         if not C.get("camMap_unset"):
             b._camMap = list(C["camMap"])  # (there is no public way to give a camera map)
@@ -188,7 +197,10 @@ def _build(C, f64=False, dates=None):
                 cams.append(BTSCameraData(_f64(c["R"], (3, 3), f64), _f64(c["T"], None, f64), _f64(c["focus"], None, f64),
                                           _f64(c["center"], None, f64), _f64(c["xd"], None, f64), _f64(c["yd"], None, f64), vp))
         b = CalibrationDataBlock(DistorsionModel(C["model"]), _f32(C["vol"]), _f32(C["rot"], (3, 3)),
-                                 _f32(C["trans"]), np.array(C["map"], dtype="<i2"), cams,
+                                 _f32(C["trans"]),
+                                 # the camera map as the user may hold it: 16 bit, numpy's default int, bytes
+                                 np.array(C["map"], dtype={True: np.int64, "be": ">i2", "be64": np.int32,
+                                                           "strided": np.uint16}.get(f64, "<i2")), cams,
                                  CalibrationDataBlockFormat(C["fmt"]), **_ctor_dates(dates))
         b._dates_by_ctor = dates is not None
     elif t == "optical":
